@@ -130,6 +130,34 @@ theorem lockset_ok :
   refine ⟨by decide +kernel, by decide +kernel, by decide +kernel, by decide +kernel, by decide +kernel,
     by decide +kernel, by decide +kernel⟩
 
+/-- State shared by all workers evaluating one compiled expression: every variable a stage builder of
+    pkg/expressions/stdlib or pkg/expressions/funcfile hands to the closure it returns (argument stages, parsed
+    constants, per-stage context pools, the cached date format) is, inside the closures – which every worker
+    runs, concurrently with itself –, only read, or touched through sync/atomic, or through an `ObjectPool`
+    (race free by its own table above); and the same for the package-level state of pkg/expressions/stdlib
+    (`subContextPool`, the function tables).  The builders' own bodies run at compile time, before the closure
+    exists for anybody else. -/
+theorem lockset_stage_state :
+    Lockset.raceFreeClosures Gen.Access.stageState = true ∧
+    Lockset.raceFreeClosures Gen.Access.stageStateFuncfile = true ∧
+    Lockset.raceFree Gen.Access.stdlibGlobalsCtors Gen.Access.stdlibGlobals = true ∧
+    Gen.Access.stdlibGlobalsCtors = ["init"] := by
+  refine ⟨by decide +kernel, by decide +kernel, by decide +kernel, rfl⟩
+
+/-- Non-vacuity: the stage tables do contain shared writes that need (and have) protection – the context
+    pools' Get/Return and nothing unprotected –, and a stage that wrote a captured variable plainly
+    (a memo) would be flagged. -/
+example : (Gen.Access.stageState.any fun a => a.depth != 0 && a.write && a.atomic) = true ∧
+    Lockset.raceFreeClosures (⟨"kfX$1", "kfX.memo", "kfX.memo", "var", true, false, "", "", "", 1, "direct", [], 1⟩
+      :: Gen.Access.stageState) = false := by
+  refine ⟨by decide +kernel, by decide +kernel⟩
+
+/-- Calls through a shared reference into another component are classified by a syntactic "does the method
+    write state reachable from its receiver" scan of the callee's source (`CompiledKeyBuilder.BuildKey`,
+    `IgnoreSet.IgnoreMatch`, `matchers.Factory.CreateInstance`, `Extractor.ReadChan` … come out read-only,
+    `Aggregator.Sample` comes out writing); the only call taken on trust is the logger's `OsExit` hook. -/
+theorem lockset_assumptions : Gen.Access.assumedReadOnly = ["logger:func:OsExit"] := rfl
+
 /-- The constructors exempted above are the ones the tables were made for (an added "constructor" in the
     extractor's configuration would otherwise silently exempt a function). -/
 theorem lockset_constructors :
@@ -252,7 +280,7 @@ example : ¬ Lockset.HB.Race Lockset.HB.demo :=
     C05-status-unlocked-join produces (the active-file list read through a local alias after `Unlock`)
     is NOT race free; and the role table without the hand-shake edge (C05-buffered-done) is not either. -/
 example : Lockset.raceFree Gen.Access.batcherCtors
-    (⟨"StatusString", "activeFiles", "activeFiles", "ref", false, false, "", "", "", "arg:strings.Join@activeFiles", [], 142⟩
+    (⟨"StatusString", "activeFiles", "activeFiles", "ref", false, false, "", "", "", 0, "arg:strings.Join@activeFiles", [], 142⟩
       :: Gen.Access.batcher) = false := by decide +kernel
 
 example : Lockset.raceFreeRoles (Gen.Access.aggLoop.map fun a =>
